@@ -116,11 +116,15 @@ func VerifC06CovertPolicy() {
 	c := &RegConfig{}
 	var block, allow []verifPolicyNet
 	mode := verifnd.Choose("policy", 3) // none, blocklist, allowlist(+blocklist)
+	nnets := 1
+	if verifnd.Thorough() {
+		nnets = 2 // thorough: two networks per list (order, overlap, mixed families)
+	}
 	if mode >= 1 {
-		c.covertBlocklistSubnets, block = verifPolicyNets("block", 1)
+		c.covertBlocklistSubnets, block = verifPolicyNets("block", nnets)
 	}
 	if mode == 2 {
-		c.covertAllowlistSubnets, allow = verifPolicyNets("allow", 1)
+		c.covertAllowlistSubnets, allow = verifPolicyNets("allow", nnets)
 		c.enableCovertAllowlist = true
 	}
 	verifnd.Finding("C06-F1", form == 5)
